@@ -45,3 +45,21 @@ package vec
 //@   assigns nothing
 
 //@ spec old_lin(lo float64, hi float64, num int, j int) float64 = num == 1 ? lo : lo + j*(hi-lo)/(num-1)
+
+// Concat (C09, C20): total length and freshness; the inputs are only read.
+//@ spec tlen(xss [][]float64, k int) int = k <= 0 ? 0 : tlen(xss, k-1) + max(0, len(xss[k-1]))
+
+//@ lemma tlen_mono(xss [][]float64, a int, b int) induction b
+//@   model real
+//@   requires 0 <= a && a <= b && b <= len(xss)
+//@   ensures tlen(xss, a) <= tlen(xss, b)
+//@   trigger tlen(xss, a), tlen(xss, b)
+
+//@ func Concat
+//@   use tlen_mono
+//@   model real
+//@   ensures [len]   len(result) == tlen(xss, len(xss))
+//@   ensures [fresh] fresh(result)
+//@   loop 1 (xs) invariant total == tlen(xss, _k) && total >= 0
+//@   loop 2 (xs) invariant pos >= 0 && pos == tlen(xss, _k) && len(out) == total && total == tlen(xss, len(xss)) && fresh(out)
+//@   assigns nothing
